@@ -262,6 +262,20 @@ class Builder:
                     self.frag_heads[name] = self.last_heads
                 self.features.add("fragment-spread")
                 items.append("...%s%s" % (name, self.directives("spread")))
+                if self.use_directives and self.coin(1, 5):
+                    # the same fragment spread twice in this selection set, one spread excluded by a directive (before or
+                    # after the other): an excluded spread is not a visit, the other one still applies
+                    which = self.d(st.sampled_from(["skip", "include"]))
+                    if self.use_variables and self.coin():
+                        cond = "$" + self.new_var("Boolean!", which == "skip", True)
+                    else:
+                        cond = "true" if which == "skip" else "false"
+                    self.features.add("fragment-spread-twice-one-excluded")
+                    second = "...%s @%s(if: %s)" % (name, which, cond)
+                    if self.coin():
+                        items.insert(len(items) - 1, second)
+                    else:
+                        items.append(second)
                 # a sibling of the spread merging with a field selected inside the fragment (at this place only)
                 mine = [(f, h) for f, h in self.frag_heads.get(name, []) if same_field(spec.field(parent, f["name"]), f)] if fields else []
                 comp = [(f, h) for f, h in mine if not spec.is_leaf(GS.named(GS.parse_t(f["type"])))]
